@@ -500,10 +500,16 @@ impl FixtureDatabase {
         let mut seen_names = HashSet::new();
 
         // Priority 1: Fixtures in the same file
+        // (a name redefined in the file denotes its last definition)
         for entry in self.definitions.iter() {
             let fixture_name = entry.key();
-            for def in entry.value().iter() {
-                if def.file_path == file_path && !seen_names.contains(fixture_name.as_str()) {
+            if let Some(def) = entry
+                .value()
+                .iter()
+                .filter(|def| def.file_path == file_path)
+                .max_by_key(|def| def.line)
+            {
+                if !seen_names.contains(fixture_name.as_str()) {
                     available_fixtures.push(def.clone());
                     seen_names.insert(fixture_name.clone());
                 }
@@ -518,10 +524,13 @@ impl FixtureDatabase {
                 // First add fixtures defined directly in the conftest
                 for entry in self.definitions.iter() {
                     let fixture_name = entry.key();
-                    for def in entry.value().iter() {
-                        if def.file_path == conftest_path
-                            && !seen_names.contains(fixture_name.as_str())
-                        {
+                    if let Some(def) = entry
+                        .value()
+                        .iter()
+                        .filter(|def| def.file_path == conftest_path)
+                        .max_by_key(|def| def.line)
+                    {
+                        if !seen_names.contains(fixture_name.as_str()) {
                             available_fixtures.push(def.clone());
                             seen_names.insert(fixture_name.clone());
                         }
@@ -1702,7 +1711,11 @@ impl FixtureDatabase {
         let definitions = self.definitions.get(fixture_name)?;
 
         // Priority 1: Same file
-        if let Some(def) = definitions.iter().find(|d| d.file_path == file_path) {
+        if let Some(def) = definitions
+            .iter()
+            .filter(|d| d.file_path == file_path)
+            .max_by_key(|d| d.line)
+        {
             return Some(def.clone());
         }
 
@@ -1719,8 +1732,11 @@ impl FixtureDatabase {
                 if let Some(parent) = def.file_path.parent() {
                     if file_path.starts_with(parent) {
                         let depth = parent.components().count();
-                        if depth > best_depth {
-                            // Deeper = closer conftest
+                        if depth > best_depth
+                            || (depth == best_depth
+                                && best_conftest.is_some_and(|best| def.line > best.line))
+                        {
+                            // Deeper = closer conftest; within one conftest the last definition wins
                             best_conftest = Some(def);
                             best_depth = depth;
                         } else if best_conftest.is_none() {
